@@ -328,23 +328,25 @@ ScanBatches(files, flt, proj, bs, floatCols) ==
 IterRecords(files, flt, proj, floatCols) == ScanBatches(files, flt, proj, 1000, floatCols)     \* 1182-1186
 
 (* ========================= property C12 ================================ *)
-Apis == {"scan", "batches1", "batches2", "batches1000", "iter"}
-Outcome(api, verify, files, flt, proj, floatCols) ==
-  CASE api = "scan"        -> ScanTable(files, flt, proj, verify, floatCols)
-    [] api = "batches1"    -> ScanBatches(files, flt, proj, 1, floatCols)
-    [] api = "batches2"    -> ScanBatches(files, flt, proj, 2, floatCols)
-    [] api = "batches1000" -> ScanBatches(files, flt, proj, 1000, floatCols)
-    [] api = "iter"        -> IterRecords(files, flt, proj, floatCols)
+\* The distinct read programs.  scan(parallel=...) runs ScanTable (see there); iter_records is
+\* ScanBatches with batch_size 1000; verify_checksums does not enter ScanBatches at all.
+Apis == {"scan_verify", "scan_noverify", "batches1", "batches2", "batches1000"}
+Outcome(api, files, flt, proj, floatCols) ==
+  CASE api = "scan_verify"   -> ScanTable(files, flt, proj, TRUE, floatCols)
+    [] api = "scan_noverify" -> ScanTable(files, flt, proj, FALSE, floatCols)
+    [] api = "batches1"      -> ScanBatches(files, flt, proj, 1, floatCols)
+    [] api = "batches2"      -> ScanBatches(files, flt, proj, 2, floatCols)
+    [] api = "batches1000"   -> ScanBatches(files, flt, proj, 1000, floatCols)      \* = IterRecords
 
 \* refMalformed: the reference grammar rejects the filter.  exprs: its reference meaning otherwise.
 Expected(files, refMalformed, exprs, proj) ==
   IF refMalformed THEN Raise ELSE Ok(ExpectedRows(files, exprs, proj))
 
-\* C12 on one case, for every API and both checksum settings.
+\* C12 on one case, for every read program.
 \* refExprs: the reference meaning of the filter; flt: what the code made of it.
 ApiConformsAt(files, refMalformed, refExprs, flt, proj, floatCols) ==
-  \A api \in Apis, verify \in BOOLEAN :
-     Outcome(api, verify, files, flt, proj, floatCols) = Expected(files, refMalformed, refExprs, proj)
+  LET exp == Expected(files, refMalformed, refExprs, proj) IN
+  \A api \in Apis : Outcome(api, files, flt, proj, floatCols) = exp
 
 \* Characterisation of the two defects of the code as it is.
 \* D1  rows lost ONLY on scan(verify_checksums=False), ONLY NaN rows of row groups that the
@@ -354,8 +356,8 @@ NaNRowsOfSkipped(files, exprs) ==
       /\ \E i \in 1..Len(exprs) : NaNBlindArm(exprs[i]) /\ files[f][r][exprs[i].col] = NAN
                                    /\ StatsRefutes(exprs[i], RGStats(files[f], exprs[i].col))}
 Ids(o) == {<<o.out[i].f, o.out[i].r>> : i \in 1..Len(o.out)}
-DefectD1(api, verify, got, exp, files, exprs) ==
-  /\ StatsPushdown /\ api = "scan" /\ ~verify /\ ~got.raise /\ ~exp.raise
+DefectD1(api, got, exp, files, exprs) ==
+  /\ StatsPushdown /\ api = "scan_noverify" /\ ~got.raise /\ ~exp.raise
   /\ Ids(got) \subseteq Ids(exp)
   /\ (Ids(exp) \ Ids(got)) # {} /\ (Ids(exp) \ Ids(got)) \subseteq NaNRowsOfSkipped(files, exprs)
   /\ \A i \in 1..Len(got.out) : \E j \in 1..Len(exp.out) : got.out[i] = exp.out[j]
@@ -363,10 +365,10 @@ DefectD1(api, verify, got, exp, files, exprs) ==
 DefectD2(got, exp) == ~ValidateFirst /\ exp.raise /\ ~got.raise /\ got.out = <<>>
 
 ApiConformsModuloKnownAt(files, refMalformed, refExprs, flt, proj, floatCols) ==
-  \A api \in Apis, verify \in BOOLEAN :
-     LET got == Outcome(api, verify, files, flt, proj, floatCols)
-         exp == Expected(files, refMalformed, refExprs, proj)
-     IN got = exp \/ DefectD1(api, verify, got, exp, files, refExprs) \/ DefectD2(got, exp)
+  LET exp == Expected(files, refMalformed, refExprs, proj) IN
+  \A api \in Apis :
+     LET got == Outcome(api, files, flt, proj, floatCols)
+     IN got = exp \/ DefectD1(api, got, exp, files, refExprs) \/ DefectD2(got, exp)
 
 \* The statistics arms other than != / not_in never change a result: whenever they refute an
 \* expression, no row of the file satisfies it.
